@@ -40,6 +40,7 @@ def main():
     ap.add_argument('--tier', default='quick')
     ap.add_argument('--only', default=None)
     ap.add_argument('--all-checks', action='store_true', help='run all 17 checks against every mutant (which checks catch which change)')
+    ap.add_argument('--seeds', default='0', help='comma-separated VERIF_SEED values for --seeded (a mutant counts as caught when every seed fires)')
     ap.add_argument('--in-repo', action='store_true', help='apply the patches to /repo itself (git apply ... git checkout -- .) instead of a scratch worktree')
     args = ap.parse_args()
     import tempfile, shutil
@@ -91,14 +92,20 @@ def main():
                     print('ERROR applying', name, r.stderr[-200:])
                     continue
                 caught = {}
+                seeds = [int(x) for x in args.seeds.split(',')]
+                per_seed = {}
                 for p in (allids if args.all_checks else meta.get('expected_checks', [meta['property']])):
-                    rc, vio, tail = run_check(p, args.tier)
-                    caught[p] = {'exit': rc, 'violations': [v[:200] for v in vio[:3]]}
+                    for sd in seeds:
+                        rc, vio, tail = run_check(p, args.tier, seed=sd)
+                        per_seed.setdefault(p, {})[sd] = rc
+                        if p not in caught or rc != 1:
+                            caught[p] = {'exit': rc, 'violations': [v[:200] for v in vio[:3]]}
                 sh('git -C %s checkout -- .' % TARGET['dir'])
-                firing = [p for p, c in caught.items() if c['exit'] == 1]
+                firing = [p for p, c in caught.items() if all(rc == 1 for rc in per_seed[p].values())]
                 ok = meta['property'] in firing
-                results.append({'mutant': name, 'expected': meta['property'], 'caught': ok, 'firing_checks': firing, 'detail': caught.get(meta['property'])})
-                print(('CAUGHT ' if ok else 'MISSED ') + '%s expected %s firing %s' % (name, meta['property'], firing), flush=True)
+                results.append({'mutant': name, 'expected': meta['property'], 'caught': ok, 'firing_checks': firing, 'detail': caught.get(meta['property']),
+                                'exit_by_seed': per_seed.get(meta['property'])})
+                print(('CAUGHT ' if ok else 'MISSED ') + '%s expected %s firing %s%s' % (name, meta['property'], firing, '' if len(seeds) == 1 else ' by seed %r' % per_seed.get(meta['property'])), flush=True)
         if args.benign:
             for d in sorted(glob.glob(os.path.join(HERE, 'benign', '*'))):
                 name = os.path.basename(d)
